@@ -9,6 +9,7 @@ mod fixture;
 mod c01;
 mod c02;
 mod c08;
+mod c10;
 mod c13;
 mod c14;
 mod c15;
@@ -46,6 +47,7 @@ fn main() {
         "C07" => c01::run_c07(&mut r),
         "C02" => c02::run(&mut r),
         "C08" => c08::run(&mut r),
+        "C10" => c10::run_c10(&mut r),
         "C13" => c13::run(&mut r),
         "C15" => c15::run(&mut r),
         _ => {}
